@@ -23,7 +23,7 @@ type c09Case struct {
 	Resp      []KV   `json:"resp"` // response headers set by the handler
 	Cid       string `json:"cid"`  // "" = generated
 	TimeoutMs int    `json:"timeout_ms"`
-	Calls     int    `json:"calls"` // sequential calls on the same env (op id freshness)
+	Calls     int    `json:"calls"`   // sequential calls on the same env (op id freshness)
 	Outcome   string `json:"outcome"` // ok | declared | error (rpc only)
 }
 
